@@ -160,6 +160,18 @@ class DuctRecorder:
         afresh, on a private copy, from its own bypass flow (constant-property
         coolant only, where they do not depend on the history): what the duct
         solve must use, whatever parameter record it reads."""
+        # a stagnant gap between two ducts conducts: k(T_gap) / (d / 2) at
+        # the temperature the gap has when the walls are solved, evaluated on
+        # a private copy at every call (no property-update tolerance)
+        try:
+            if reg.n_bypass > 0 and np.sum(reg.byp_flow_rate) == 0 and \
+                    not hasattr(reg, '_coolant_tracker'):
+                import copy
+                c = copy.deepcopy(reg)
+                c._update_coolant_byp_params(c.avg_coolant_byp_temp)
+                return np.array(c.coolant_byp_params['htc'], copy=True)
+        except BaseException:
+            return None
         key = id(reg)
         if key not in self._own_htc:
             val = None
